@@ -585,4 +585,241 @@ theorem value_eq_git_proof (text : Bytes) (hp : plainText text = true) :
   rw [git_skip_blanks _ _ hsplit.2]
   exact value_sim _ [] false false [] [] 0 Inv.init (by simpa using hplain)
 
+/-! ### CRLF texts -/
+
+theorem foldCrlf_cons (c : UInt8) (x : Bytes) (h : c ≠ 13) : foldCrlf (c :: x) = c :: foldCrlf x := by
+  cases x with
+  | nil => simp [foldCrlf]
+  | cons d r => rw [foldCrlf]; simp [h]
+
+theorem foldCrlf_crlf (r : Bytes) : foldCrlf (13 :: 10 :: r) = 10 :: foldCrlf r := by
+  rw [foldCrlf]; simp
+
+theorem crOk_cons (c : UInt8) (x : Bytes) (h : c ≠ 13) : crOk (c :: x) = crOk x := by
+  cases x with
+  | nil => simp [crOk, h]
+  | cons d r => rw [crOk]; simp [h]
+
+theorem foldCrlf_ne_nil (d : UInt8) (r : Bytes) : foldCrlf (d :: r) ≠ [] := by
+  cases r with
+  | nil => simp [foldCrlf]
+  | cons e r' => rw [foldCrlf]; split <;> simp
+
+theorem finish_valText (acc acc' rest rest' : Bytes) (inQ part eof : Bool) (em em' : List Event)
+    (hv : valText em = valText em') (ht : trimEnd acc = trimEnd acc') (he : (eof && acc.isEmpty) = (eof && acc'.isEmpty))
+    :
+    gixResult (valueFinish acc rest inQ part eof em) = gixResult (valueFinish acc' rest' inQ part eof em') := by
+  unfold valueFinish gixResult
+  cases inQ with
+  | true => simp
+  | false =>
+    simp only [Bool.false_eq_true, ↓reduceIte]
+    rw [← he]
+    split
+    · cases part <;> simp [valText_append, hv]
+    · cases part <;> simp [valText_append, hv, ht]
+
+theorem trimEnd_snoc_cr (acc : Bytes) : trimEnd (acc ++ [13]) = trimEnd acc := by
+  unfold trimEnd
+  simp [List.dropWhile_cons, isAsciiWs]
+
+
+theorem scan_nl (x acc : Bytes) (inQ part : Bool) (em : List Event) :
+    valueScan (10 :: x) acc inQ part em = valueFinish acc (10 :: x) inQ part false em := by
+  cases x with
+  | nil => conv => lhs; unfold valueScan
+           simp
+  | cons d r => conv => lhs; unfold valueScan
+                simp
+
+theorem scan_comment (c : UInt8) (x acc : Bytes) (part : Bool) (em : List Event) (hc : c = 59 ∨ c = 35) :
+    valueScan (c :: x) acc false part em = valueFinish acc (c :: x) false part false em := by
+  have h10 : (c == 10) = false := by rcases hc with rfl | rfl <;> decide
+  have hcm : (c == 59 || c == 35) = true := by rcases hc with rfl | rfl <;> decide
+  cases x with
+  | nil => conv => lhs; unfold valueScan
+           simp [h10, hcm]
+  | cons d r => conv => lhs; unfold valueScan
+                simp [h10, hcm]
+
+/-- gitoxide's scanner gives the same value on a text and on the text with every CR LF folded to
+LF, provided every CR is part of a CR LF -/
+theorem scan_fold : ∀ (i acc : Bytes) (inQ part : Bool) (em : List Event) (em' : List Event),
+    valText em = valText em' → crOk i = true →
+    gixResult (valueScan i acc inQ part em) = gixResult (valueScan (foldCrlf i) acc inQ part em') := by
+  intro i acc inQ part em
+  fun_induction valueScan i acc inQ part em <;> intro em' hv hcr
+  case case1 =>
+    simp only [foldCrlf, valueScan]
+    exact finish_valText _ _ _ _ _ _ _ _ _ hv rfl rfl
+  case case2 =>
+    rename_i c _ _ _ _ hc
+    have : c = 10 := by simpa using hc
+    subst this
+    simp only [foldCrlf]
+    rw [scan_nl]
+    exact finish_valText _ _ _ _ _ _ _ _ _ hv rfl rfl
+  case case3 =>
+    rename_i c _ inQ _ _ _ hc
+    simp only [Bool.and_eq_true, Bool.or_eq_true, beq_iff_eq, Bool.not_eq_true'] at hc
+    obtain ⟨hc1, hq⟩ := hc
+    subst hq
+    simp only [foldCrlf]
+    rw [scan_comment c [] _ _ _ hc1]
+    exact finish_valText _ _ _ _ _ _ _ _ _ hv rfl rfl
+  case case4 =>
+    rename_i c _ _ _ _ h10 hcm hc
+    simp only [foldCrlf]
+    conv => rhs; unfold valueScan
+    simp [h10, hcm, hc, gixResult]
+  case case5 =>
+    rename_i c acc inQ part em h10 hcm h92
+    simp only [foldCrlf]
+    conv => rhs; unfold valueScan
+    simp only [h10, hcm, h92, Bool.false_eq_true, ↓reduceIte]
+    exact finish_valText _ _ _ _ _ _ _ _ _ hv rfl rfl
+  case case6 =>
+    rename_i c d r _ _ _ _ hc
+    have : c = 10 := by simpa using hc
+    subst this
+    rw [foldCrlf_cons 10 _ (by decide), scan_nl]
+    exact finish_valText _ _ _ _ _ _ _ _ _ hv rfl rfl
+  case case7 =>
+    rename_i c d r _ inQ _ _ _ hc
+    simp only [Bool.and_eq_true, Bool.or_eq_true, beq_iff_eq, Bool.not_eq_true'] at hc
+    obtain ⟨hc1, hq⟩ := hc
+    subst hq
+    have h13 : c ≠ 13 := by rcases hc1 with rfl | rfl <;> decide
+    rw [foldCrlf_cons c _ h13, scan_comment c _ _ _ _ hc1]
+    exact finish_valText _ _ _ _ _ _ _ _ _ hv rfl rfl
+  case case8 =>
+    rename_i c d r acc inQ part em h10 hcm h92 hd ih
+    have hc : c = 92 := by simpa using h92
+    have hd' : d = 10 := by simpa using hd
+    subst hc hd'
+    rw [foldCrlf_cons 92 _ (by decide), foldCrlf_cons 10 _ (by decide)]
+    conv => rhs; unfold valueScan
+    simp only [show ((92 : UInt8) == 10) = false by decide, Bool.false_eq_true, ↓reduceIte, hcm,
+      show ((92 : UInt8) == 92) = true by decide, show ((10 : UInt8) == 10) = true by decide]
+    apply ih
+    · simp [valText_append, hv]
+    · rw [crOk_cons 92 _ (by decide), crOk_cons 10 _ (by decide)] at hcr; exact hcr
+  case case9 =>
+    rename_i c d acc inQ part em h10 hcm h92 hd10 hd13 r3 ih
+    have hc : c = 92 := by simpa using h92
+    have hd' : d = 13 := by simpa using hd13
+    subst hc hd'
+    rw [foldCrlf_cons 92 _ (by decide), foldCrlf_crlf]
+    conv => rhs; unfold valueScan
+    simp only [show ((92 : UInt8) == 10) = false by decide, Bool.false_eq_true, ↓reduceIte, hcm,
+      show ((92 : UInt8) == 92) = true by decide, show ((10 : UInt8) == 10) = true by decide]
+    apply ih
+    · rw [valText_append, valText_append, hv]; simp [valText]
+    · rw [crOk_cons 92 _ (by decide), crOk] at hcr
+      simpa using hcr
+  case case10 =>
+    rename_i c d r acc inQ part em h10 hcm h92 hd10 hd13 hnot
+    have hc : c = 92 := by simpa using h92
+    have hd' : d = 13 := by simpa using hd13
+    subst hc hd'
+    exfalso
+    rw [crOk_cons 92 _ (by decide)] at hcr
+    cases r with
+    | nil => simp [crOk] at hcr
+    | cons e r' =>
+      rw [crOk] at hcr
+      simp only [beq_self_eq_true, ↓reduceIte, Bool.and_eq_true, beq_iff_eq] at hcr
+      exact hnot r' (by rw [hcr.1])
+  case case11 =>
+    rename_i c d r acc inQ part em h10 hcm h92 hd10 hd13 hesc ih
+    have hc : c = 92 := by simpa using h92
+    subst hc
+    have hd13' : d ≠ 13 := by simpa using hd13
+    rw [foldCrlf_cons 92 _ (by decide), foldCrlf_cons d _ hd13']
+    conv => rhs; unfold valueScan
+    simp only [show ((92 : UInt8) == 10) = false by decide, Bool.false_eq_true, ↓reduceIte, hcm,
+      show ((92 : UInt8) == 92) = true by decide, hd10, hd13, hesc]
+    apply ih _ hv
+    rw [crOk_cons 92 _ (by decide), crOk_cons d _ hd13'] at hcr; exact hcr
+  case case12 =>
+    rename_i c d r acc inQ part em h10 hcm h92 hd10 hd13 hesc
+    have hc : c = 92 := by simpa using h92
+    subst hc
+    have hd13' : d ≠ 13 := by simpa using hd13
+    rw [foldCrlf_cons 92 _ (by decide), foldCrlf_cons d _ hd13']
+    conv => rhs; unfold valueScan
+    simp [hcm, hd10, hd13, hesc, gixResult]
+  case case13 =>
+    rename_i c d r acc inQ part em h10 hcm h92 ih
+    by_cases h13 : c = 13
+    · subst h13
+      rw [crOk] at hcr
+      simp only [beq_self_eq_true, ↓reduceIte, Bool.and_eq_true, beq_iff_eq] at hcr
+      obtain ⟨hd, hcr'⟩ := hcr
+      subst hd
+      rw [foldCrlf_crlf, scan_nl, scan_nl]
+      simp only [show ((13 : UInt8) == 34) = false by decide, Bool.false_eq_true, ↓reduceIte]
+      exact finish_valText _ _ _ _ _ _ _ _ _ hv (trimEnd_snoc_cr acc) rfl
+    · rw [foldCrlf_cons c _ h13]
+      obtain ⟨d', r', hfold⟩ : ∃ d' r', foldCrlf (d :: r) = d' :: r' := by
+        cases h : foldCrlf (d :: r) with
+        | nil => exact absurd h (foldCrlf_ne_nil d r)
+        | cons d' r' => exact ⟨d', r', rfl⟩
+      rw [hfold]
+      conv => rhs; unfold valueScan
+      simp only [h10, hcm, h92, Bool.false_eq_true, ↓reduceIte]
+      rw [← hfold]
+      apply ih _ hv
+      rw [crOk_cons c _ h13] at hcr; exact hcr
+
+
+theorem crOk_dropBlanks : ∀ (t : Bytes), crOk t = true → crOk (t.dropWhile isSpace) = true := by
+  intro t
+  induction t with
+  | nil => intro h; exact h
+  | cons c x ih =>
+    intro h
+    by_cases hc : isSpace c = true
+    · have h13 : c ≠ 13 := by intro h'; subst h'; simp [isSpace] at hc
+      rw [crOk_cons c x h13] at h
+      simpa [List.dropWhile_cons, hc] using ih h
+    · simpa [List.dropWhile_cons, hc] using h
+
+theorem foldCrlf_dropBlanks : ∀ (t : Bytes), foldCrlf (t.dropWhile isSpace) = (foldCrlf t).dropWhile isSpace := by
+  intro t
+  induction t with
+  | nil => rfl
+  | cons c x ih =>
+    by_cases hc : isSpace c = true
+    · have h13 : c ≠ 13 := by intro h'; subst h'; simp [isSpace] at hc
+      rw [foldCrlf_cons c x h13]
+      simp [List.dropWhile_cons, hc, ih]
+    · have hl : (c :: x).dropWhile isSpace = c :: x := by simp [List.dropWhile_cons, hc]
+      rw [hl]
+      -- the folded text starts with `c`, or with LF if `c` is the CR of a CR LF: no blank either way
+      have hhead : (foldCrlf (c :: x)).head?.all (fun b => !isSpace b) = true := by
+        cases x with
+        | nil => simp [foldCrlf, hc]
+        | cons d r =>
+          rw [foldCrlf]
+          split
+          · simp [isSpace]
+          · simp [hc]
+      cases hf : foldCrlf (c :: x) with
+      | nil => rfl
+      | cons y r => rw [hf] at hhead; simp at hhead; simp [List.dropWhile_cons, hhead]
+
+/-- `value_eq_git` for CRLF texts: every CR belongs to a CR LF (line ends and continuation lines
+in a CRLF file), and the text with CR LF read as LF is plain -/
+theorem value_eq_git_crlf_proof (text : Bytes) (hcr : crOk text = true) (hp : plainText (foldCrlf text) = true) :
+    gixValueOfText text = gitParseValue text := by
+  have hnocr : (foldCrlf text).all (· != 13) = true := by
+    unfold plainText at hp; simp only [Bool.and_eq_true] at hp; exact hp.1
+  have hg : gitParseValue text = gitParseValue (foldCrlf text) := by
+    unfold gitParseValue; rw [foldCrlf_noCR _ hnocr]
+  rw [hg, ← value_eq_git_proof _ hp]
+  unfold gixValueOfText
+  rw [optSpaces_snd, optSpaces_snd, ← foldCrlf_dropBlanks]
+  exact scan_fold _ [] false false [] [] rfl (crOk_dropBlanks text hcr)
+
 end GixModel.C27
